@@ -398,3 +398,19 @@ func TestOnce(t *testing.T) {
 		t.Fatalf("outcomes %v over %d schedules", got, st.Leaves)
 	}
 }
+
+// Pool: both behaviours of a pool (object kept / pool emptied) are explored, nothing leaks between executions
+func TestPool(t *testing.T) {
+	var pool = vsched.Pool{New: func() any { return new(int) }}
+	got, _ := exploreAll(t, -1, func() string {
+		a := pool.Get().(*int)
+		first := *a
+		*a = 7
+		pool.Put(a)
+		b := pool.Get().(*int)
+		return fmt.Sprint(first, *b)
+	})
+	if !reflect.DeepEqual(keys(got), []string{"0 0", "0 7"}) {
+		t.Fatalf("outcomes %v", got)
+	}
+}
